@@ -10,6 +10,7 @@ python3 gen/ast2coq.py || echo "setup: ast2coq.py failed (reported by C13)"
 python3 gen/symkern.py || echo "setup: symkern.py failed (reported by C02 C03 C04 C06 C07)"
 python3 gen/symround.py || echo "setup: symround.py failed (reported by C16)"
 python3 gen/symops.py || echo "setup: symops.py failed (reported by C03 C04 C06 C07)"
+python3 gen/symroundops.py || echo "setup: symroundops.py failed (reported by C16)"
 python3 gen/symops2.py || echo "setup: symops2.py failed (reported by C01 C02 C11 C12 C15)"
 cd coq
 coq_makefile -f _CoqProject -o Makefile
